@@ -3,6 +3,7 @@ package templater
 import (
 	"bytes"
 	"encoding/json"
+	"fmt"
 	"github.com/f1bonacc1/process-compose/src/health"
 	"github.com/f1bonacc1/process-compose/src/types"
 	"github.com/rs/zerolog/log"
@@ -23,7 +24,10 @@ func (t *Templater) RenderProcess(proc *types.ProcessConfig) {
 	if proc.Vars == nil {
 		proc.Vars = make(types.Vars)
 	}
-	procConf, err := json.Marshal(proc)
+	// nested extension values decoded by yaml.v2 (map[interface{}]interface{}) cannot be marshalled as they are
+	marshalled := *proc
+	marshalled.Extensions, _ = jsonCompatible(proc.Extensions).(map[string]interface{})
+	procConf, err := json.Marshal(marshalled)
 	if err != nil {
 		log.Error().Err(err).Msg("Failed to marshal process config")
 	}
@@ -35,6 +39,33 @@ func (t *Templater) RenderProcess(proc *types.ProcessConfig) {
 	proc.Description = t.RenderWithExtraVars(proc.Description, proc.Vars)
 	t.renderProbe(proc.ReadinessProbe, proc)
 	t.renderProbe(proc.LivenessProbe, proc)
+}
+
+func jsonCompatible(v interface{}) interface{} {
+	switch val := v.(type) {
+	case map[string]interface{}:
+		if val == nil {
+			return val
+		}
+		res := make(map[string]interface{}, len(val))
+		for k, e := range val {
+			res[k] = jsonCompatible(e)
+		}
+		return res
+	case map[interface{}]interface{}:
+		res := make(map[string]interface{}, len(val))
+		for k, e := range val {
+			res[fmt.Sprint(k)] = jsonCompatible(e)
+		}
+		return res
+	case []interface{}:
+		res := make([]interface{}, len(val))
+		for i, e := range val {
+			res[i] = jsonCompatible(e)
+		}
+		return res
+	}
+	return v
 }
 
 func (t *Templater) renderProbe(probe *health.Probe, procConf *types.ProcessConfig) {
